@@ -67,6 +67,19 @@ def build_scene(sc: dict):
     for n, s in enumerate(sc.get("sources", [])):
         wc = fdtdx.WaveCharacter(wavelength=s.get("wl", 800e-9))
         kw = dict(name=s.get("name", f"src{n}"), partial_grid_shape=(1, 1, 1), wave_character=wc, polarization=s.get("pol", 0), amplitude=s.get("amp", 1.0), switch=make_switch(s.get("switch")))
+        if s.get("kind", "dipole") == "plane":
+            # uniform plane source normal to axis `axis` at index pos[axis], spanning the whole cross-section
+            a = s.get("axis", 2)
+            shape = list(sc["shape"])
+            shape[a] = 1
+            lo = [0, 0, 0]
+            lo[a] = s["pos"][a]
+            src = fdtdx.UniformPlaneSource(name=kw["name"], partial_grid_shape=tuple(shape), wave_character=wc, direction=s.get("dir", "+"),
+                                           fixed_E_polarization_vector=tuple(float(x) for x in s.get("epol", (1, 0, 0) if a != 0 else (0, 1, 0))),
+                                           amplitude=s.get("amp", 1.0), switch=kw["switch"])
+            constraints.append(src.set_grid_coordinates(axes=(0, 1, 2), sides=("-", "-", "-"), coordinates=tuple(lo)))
+            objects.append(src)
+            continue
         if s.get("kind", "dipole") == "mdipole":
             kw["source_type"] = "magnetic"
         src = fdtdx.PointDipoleSource(**kw)
